@@ -48,3 +48,106 @@ package main
 //@ prop C01
 //@ at call Encode assert[userinfo-only-if-session] ret1(getAuthenticatedSession) == nil && ret0(getAuthenticatedSession) != nil
 //@ ensures[unauthenticated-401] ret1(getAuthenticatedSession) != nil ==> called(http.Error) && arg(http.Error, 2) == 401 && !called(Encode)
+
+// ---------------------------------------------------------------- C03 / C05 / C08 / C13 / C14 / C06: the login callback
+//@ func (*OAuthProxy).OAuthCallback
+//@ prop C03
+//@ at call SaveSession assert[state-matches-validated-csrf-cookie-of-this-login] ret2(decodeState) == nil
+//@     && arg(decodeState, 0) == ret(Get#1) && arg(Get#1, 1) == "state"
+//@     && arg(GenerateCookieName, 0) == p.CookieOptions && arg(GenerateCookieName, 1) == ret0(decodeState)
+//@     && ret1(LoadCSRFCookie) == nil && arg(LoadCSRFCookie, 0) == req && arg(LoadCSRFCookie, 1) == ret(GenerateCookieName)
+//@     && arg(LoadCSRFCookie, 2) == p.CookieOptions
+//@     && ret(CheckOAuthState) && recv(CheckOAuthState) == ret0(LoadCSRFCookie) && arg(CheckOAuthState, 0) == ret0(decodeState)
+//@ ensures[csrf-failure-is-error-page-without-session] ret2(decodeState) != nil || (called(LoadCSRFCookie) && ret1(LoadCSRFCookie) != nil)
+//@     || (called(CheckOAuthState) && !ret(CheckOAuthState)) ==> called(ErrorPage) && !called(SaveSession)
+//@ ensures[converse-matching-login-succeeds] called(CheckOAuthState) && ret(CheckOAuthState) && ret(ValidateSession)
+//@     && ret(Validator) && ret0(Authorize) ==> called(SaveSession)
+//@ prop C05
+//@ at call SaveSession assert[verifier-and-nonce-from-this-logins-cookie] ret1(redeemCode) == nil
+//@     && arg(redeemCode, 2) == ret(GetCodeVerifier) && recv(GetCodeVerifier) == ret0(LoadCSRFCookie)
+//@     && called(SetSessionNonce) && recv(SetSessionNonce) == ret0(LoadCSRFCookie) && arg(SetSessionNonce, 0) == ret0(redeemCode)
+//@     && ret(ValidateSession) && arg(ValidateSession, 1) == ret0(redeemCode) && arg(SaveSession, 3) == ret0(redeemCode)
+//@ prop C14
+//@ at call SaveSession assert[no-session-on-provider-failure] ret1(redeemCode) == nil && ret(enrichSessionState) == nil
+//@     && arg(enrichSessionState, 2) == ret0(redeemCode) && ret(ValidateSession)
+//@ ensures[provider-failure-is-error-page] (called(redeemCode) && ret1(redeemCode) != nil) || (called(enrichSessionState) && ret(enrichSessionState) != nil)
+//@     || (called(ValidateSession) && !ret(ValidateSession)) ==> called(ErrorPage) && !called(SaveSession)
+//@ prop C08
+//@ at call SaveSession assert[login-only-for-authorised-identity] ret(Validator) && ret0(Authorize)
+//@     && arg(Authorize, 1) == ret0(redeemCode)
+//@ ensures[unauthorised-login-gets-no-session] (called(Validator) && !ret(Validator)) || (called(Authorize) && !ret0(Authorize))
+//@     ==> !called(SaveSession) && called(ErrorPage)
+//@ prop C13 C06
+//@ at call http.Redirect assert[redirect-only-after-persisted-to-validated-target] ret(SaveSession) == nil
+//@     && (arg(http.Redirect, 2) == "/" || (ret(IsValidRedirect) && arg(IsValidRedirect, 0) == arg(http.Redirect, 2)
+//@         && arg(http.Redirect, 2) == ret1(decodeState)))
+//@ ensures[save-failure-is-error-page] called(SaveSession) && ret(SaveSession) != nil ==> called(ErrorPage) && !called(http.Redirect)
+//@ prop C03 C14
+//@ ensures[every-request-answered] called(http.Redirect) || called(ErrorPage)
+
+//@ func (*OAuthProxy).redeemCode
+//@ prop C14 C05
+//@ ensures[session-only-from-successful-redeem] ret1 == nil ==> called(Redeem) && ret1(Redeem) == nil && ret0 == ret0(Redeem)
+//@     && arg(Redeem, 3) == codeVerifier && arg(Redeem, 2) == ret(Get) && ret(Get) != ""
+//@ ensures[error-means-no-session] ret1 != nil ==> ret0 == nil
+
+//@ func (*OAuthProxy).enrichSessionState
+//@ prop C14
+//@ ensures[email-lookup-error-propagates] called(GetEmailAddress) && ret1(GetEmailAddress) != nil
+//@     && !errors.Is(ret1(GetEmailAddress), providers.ErrNotImplemented) ==> ret0 == ret1(GetEmailAddress) && !called(EnrichSession)
+//@ ensures[enrich-error-propagates] called(EnrichSession) ==> ret0 == ret(EnrichSession)
+
+// ---------------------------------------------------------------- C05 / C06 / C03: starting a login
+//@ func (*OAuthProxy).doOAuthStart
+//@ prop C05
+//@ at call GetLoginURL assert[hashed-nonce-and-state-never-raw] arg(GetLoginURL, 2) == ret(HashOIDCNonce) && recv(HashOIDCNonce) == ret0(NewCSRF)
+//@     && arg(GetLoginURL, 1) == ret(encodeState) && arg(encodeState, 0) == ret(HashOAuthState) && recv(HashOAuthState) == ret0(NewCSRF)
+//@     && ret1(NewCSRF) == nil
+//@ at call NewCSRF assert[verifier-goes-into-the-cookie] arg(NewCSRF, 0) == p.CookieOptions
+//@     && (called(GenerateCodeVerifierString) ==> arg(NewCSRF, 1) == ret0(GenerateCodeVerifierString) && ret1(GenerateCodeVerifierString) == nil)
+//@     && (!called(GenerateCodeVerifierString) ==> arg(NewCSRF, 1) == "")
+//@ at call GenerateCodeVerifierString assert[rfc7636-length] arg(GenerateCodeVerifierString, 0) == 96
+//@ at call GenerateCodeChallenge assert[challenge-from-this-verifier] arg(GenerateCodeChallenge, 1) == ret0(GenerateCodeVerifierString)
+//@ at call Add#0 assert[challenge-param] arg(Add#0, 1) == "code_challenge" && arg(Add#0, 2) == ret0(GenerateCodeChallenge) && ret1(GenerateCodeChallenge) == nil
+//@ at call Add#1 assert[method-param] arg(Add#1, 1) == "code_challenge_method"
+//@ prop C03 C06 C13
+//@ at call http.Redirect assert[login-redirect-only-after-csrf-cookie-set-to-provider-url] ret1(SetCookie) == nil && recv(SetCookie) == ret0(NewCSRF)
+//@     && arg(http.Redirect, 2) == ret(GetLoginURL) && ret1(GetRedirect) == nil && arg(encodeState, 1) == ret0(GetRedirect)
+//@ ensures[every-request-answered] called(http.Redirect) || called(ErrorPage)
+
+// ---------------------------------------------------------------- C11 / C13 / C06: sign-out, sign-in
+//@ func (*OAuthProxy).SignOut
+//@ prop C11 C13 C06
+//@ at call http.Redirect assert[success-redirect-only-after-clear-succeeded] ret(ClearSessionCookie) == nil && ret1(GetRedirect) == nil
+//@     && arg(http.Redirect, 2) == ret0(GetRedirect)
+//@ ensures[clear-failure-is-error-page] called(ClearSessionCookie) && ret(ClearSessionCookie) != nil ==> called(ErrorPage) && !called(http.Redirect)
+//@ ensures[always-tries-to-clear] ret1(GetRedirect) == nil ==> called(ClearSessionCookie)
+
+//@ func (*OAuthProxy).SignIn
+//@ prop C13 C06 C01
+//@ at call http.Redirect assert[redirect-only-after-persisted] ret(SaveSession) == nil && ret1(ManualSignIn) && ret1(GetRedirect) == nil
+//@     && arg(http.Redirect, 2) == ret0(GetRedirect)
+//@ at call SaveSession assert[session-only-for-validated-password] ret1(ManualSignIn) && arg(SaveSession, 3).User == ret0(ManualSignIn)
+//@ ensures[save-failure-is-error-page] called(SaveSession) && ret(SaveSession) != nil ==> called(ErrorPage) && !called(http.Redirect)
+
+//@ func (*OAuthProxy).ManualSignIn
+//@ prop C01
+//@ ensures[ok-only-if-validated] ret1 ==> called(Validate) && ret(Validate) && arg(Validate, 0) == ret0 && ret0 != ""
+
+//@ func (*OAuthProxy).SignInPage
+//@ prop C13 C11
+//@ at call WriteHeader assert[page-only-after-cookie-cleared] ret(ClearSessionCookie) == nil
+//@ ensures[clear-failure-is-error-page] ret(ClearSessionCookie) != nil ==> called(ErrorPage) && !called(WriteSignInPage)
+
+//@ func (*OAuthProxy).ErrorPage
+//@ prop C06
+//@ at call WriteErrorPage assert[redirect-target-is-root-or-directors] arg(WriteErrorPage, 1).RedirectURL == "/"
+//@     || arg(WriteErrorPage, 1).RedirectURL == ret0(GetRedirect)
+
+//@ func (*OAuthProxy).ClearSessionCookie
+//@ prop C11 C13
+//@ ensures[store-clear-passthrough] ret0 == ret(Clear) && arg(Clear, 0) == rw && arg(Clear, 1) == req && recv(Clear) == p.sessionStore
+
+//@ func (*OAuthProxy).SaveSession
+//@ prop C13
+//@ ensures[store-save-passthrough] ret0 == ret(Save) && arg(Save, 2) == s && recv(Save) == p.sessionStore
